@@ -45,10 +45,10 @@ package quicvarint
 //@   ensures  [len]    len(result) == len(b) + vlen(i)
 //@   ensures  [prefix] forall(k, 0, len(b), result[k] == old(b[k]))
 //@   ensures  [array]  samearray(result, b) || isfresh(result)
-//@   ensures  [b1]     implies(i <= 63, result[len(b)] == uint8(i))
-//@   ensures  [b2]     implies(i > 63 && i <= 16383, result[len(b)] == uint8(i>>8)|0x40 && result[len(b)+1] == uint8(i))
-//@   ensures  [b4]     implies(i > 16383 && i <= 1073741823, result[len(b)] == uint8(i>>24)|0x80 && result[len(b)+1] == uint8(i>>16) && result[len(b)+2] == uint8(i>>8) && result[len(b)+3] == uint8(i))
-//@   ensures  [b8]     implies(i > 1073741823, result[len(b)] == uint8(i>>56)|0xc0 && result[len(b)+1] == uint8(i>>48) && result[len(b)+2] == uint8(i>>40) && result[len(b)+3] == uint8(i>>32) &&
+//@   ensures  [bv:b1]     implies(i <= 63, result[len(b)] == uint8(i))
+//@   ensures  [bv:b2]     implies(i > 63 && i <= 16383, result[len(b)] == uint8(i>>8)|0x40 && result[len(b)+1] == uint8(i))
+//@   ensures  [bv:b4]     implies(i > 16383 && i <= 1073741823, result[len(b)] == uint8(i>>24)|0x80 && result[len(b)+1] == uint8(i>>16) && result[len(b)+2] == uint8(i>>8) && result[len(b)+3] == uint8(i))
+//@   ensures  [bv:b8]     implies(i > 1073741823, result[len(b)] == uint8(i>>56)|0xc0 && result[len(b)+1] == uint8(i>>48) && result[len(b)+2] == uint8(i>>40) && result[len(b)+3] == uint8(i>>32) &&
 //@                                 result[len(b)+4] == uint8(i>>24) && result[len(b)+5] == uint8(i>>16) && result[len(b)+6] == uint8(i>>8) && result[len(b)+7] == uint8(i))
 //@   modifies b[*]
 
